@@ -583,7 +583,7 @@ func runTree(t *rapid.T, r *rec.Recorder) {
 			w.step(t, r, "resubmit", fmt.Sprintf("#%d", id), w.tree.Nodes[id].Header, "accept")
 		},
 		"resubmitCreation": func(t *rapid.T) {
-			if rapid.IntRange(0, 3).Draw(t, "rarely") != 0 {
+			if rapid.IntRange(0, 15).Draw(t, "rarely") != 0 {
 				t.Skip("rare action")
 			}
 			w.step(t, r, "resubmit_creation_header", "#0", w.tree.Nodes[0].Header, "reject")
